@@ -443,6 +443,7 @@ def main(factory_mod, factory_name, argv=None):
             "nontrivial_runs": agg["nontrivial"],
             "distinct_interleavings": len(agg["digests"]),
             "distinct_states": len(agg["states"]),
+            "state_measure": getattr(chk, "state_measure", "not measured for this check (no state abstraction registered)"),
             "fault_counts_and_reach_probes": dict(sorted(agg["counters"].items())),
             "real_components": chk.real_components,
             "stub_components": chk.stub_components,
